@@ -440,7 +440,14 @@ fn exec(out: &mut Out, world: &mut World, line: &str, rtm: &tokio::runtime::Runt
                 let code: u32 = w[4].parse().unwrap();
                 let text = String::from_utf8(unhex(w[5]).unwrap()).expect("utf8 text");
                 let ec = repe::ErrorCode::try_from(code).expect("named code");
-                let req = Message::builder().id(id).query_bytes(rq.clone()).query_format_code(1).body_bytes(vec![1u8, 2, 3]).build();
+                // the request object may carry declared lengths that are not those of its payloads (a hand-built or
+                // re-used Message): the response must be framed from the real query
+                let mut req = Message::builder().id(id).query_bytes(rq.clone()).query_format_code(1).body_bytes(vec![1u8, 2, 3]).build();
+                if let (Some(sq), Some(sb)) = (w.get(6).and_then(|x| x.parse::<u64>().ok()), w.get(7).and_then(|x| x.parse::<u64>().ok())) {
+                    req.header.query_length = sq;
+                    req.header.body_length = sb;
+                    req.header.length = sq.wrapping_add(sb);
+                }
                 (repe::message::create_error_response_like(&req, ec, &text),
                  RawFrame { h: RawHeader { length: 48 + rq.len() as u64 + text.len() as u64, spec: 0x1507, version: 1, id, query_length: rq.len() as u64, body_length: text.len() as u64, body_format: 3, ec: code, ..Default::default() }, query: rq, body: text.into_bytes() })
             };
@@ -882,7 +889,9 @@ fn gen_aux(r: &mut Rng, ops: &mut Vec<String>, i: usize, h: &RawHeader, q: &[u8]
     ops.push(format!("new {}n {} {} {}", i, nh.fields(), hex(q), hex(b)));
     let code = *r.pick(CODES);
     ops.push(format!("errmsg {}e {} {}", i, code, hex(gen_text(r).as_bytes())));
-    ops.push(format!("errlike {}l {} {} {} {}", i, r.boundary(64), hex(&gen_query(r)), *r.pick(CODES), hex(gen_text(r).as_bytes())));
+    let rq = gen_query(r);
+    let (sq, sb) = if r.chance(1, 2) { (rq.len() as u64, 3) } else { (r.boundary(64), r.boundary(64)) };
+    ops.push(format!("errlike {}l {} {} {} {} {} {}", i, r.boundary(64), hex(&rq), *r.pick(CODES), hex(gen_text(r).as_bytes()), sq, sb));
     // create_response: the body is serialised here, independently, with the same serialisers the crate documents
     let value = match r.below(6) {
         0 => serde_json::Value::Null,
@@ -1304,6 +1313,42 @@ fn exec_net(out: &mut Out, w: &NetWorld, line: &str) -> (String, bool) {
                 out.oracle_fail(&format!("parse.net.{}.call_hung", ep), "a call answered with hostile bytes did not return within its own timeout", &[line.to_string()]);
             }
         }
+        // the WebSocket proxy entry point (`proxy_connection`): one inbound binary message = one frame, forwarded upstream
+        "wsproxy" => {
+            let upstream_addr = w.atcp;
+            let mut served_inexact = false;
+            alive = w.rt.block_on(async {
+                let one = |payload: Vec<u8>, wait: std::time::Duration| async move {
+                    let l = tokio::net::TcpListener::bind("127.0.0.1:0").await.ok()?;
+                    let addr = l.local_addr().ok()?;
+                    tokio::spawn(async move {
+                        let Ok(upstream) = repe::AsyncClient::connect(upstream_addr).await else { return };
+                        let Ok((s, _)) = l.accept().await else { return };
+                        let Ok(wsx) = tokio_tungstenite::accept_async(s).await else { return };
+                        let _ = repe::websocket_server::proxy_connection(wsx, upstream).await;
+                    });
+                    let (mut c, _) = tokio_tungstenite::connect_async(&format!("ws://{}/", addr)).await.ok()?;
+                    c.send(WsMsg::Binary(payload)).await.ok()?;
+                    match tokio::time::timeout(wait, c.next()).await {
+                        Ok(Some(Ok(WsMsg::Binary(b)))) => Some(b),
+                        _ => None,
+                    }
+                };
+                let inexact = !matches!(RawFrame::parse_prefix(&bs), Some((_, n)) if n == bs.len());
+                if let Some(b) = one(bs.clone(), t).await {
+                    if inexact && RawFrame::parse_prefix(&b).map(|(f, _)| f.h.ec == 0).unwrap_or(false) {
+                        served_inexact = true;
+                    }
+                }
+                match one(ping.clone(), std::time::Duration::from_secs(10)).await {
+                    Some(b) => RawFrame::parse_prefix(&b).map(|(f, _)| f.h.id == 77 && f.h.ec == 0).unwrap_or(false),
+                    None => false,
+                }
+            });
+            if served_inexact {
+                out.oracle_fail("parse.net.wsproxy.served_inexact_message", "the WebSocket proxy forwarded (and got answered, ec 0) a binary message that is not exactly one consistent frame", &[line.to_string()]);
+            }
+        }
         // the real WebSocketClient answered with a well-formed response for ITS id followed by extra bytes in the same
         // binary message: one message per buffer, so the exact-length rule says this is not a response
         "wsecho" => {
@@ -1350,7 +1395,7 @@ fn exec_net(out: &mut Out, w: &NetWorld, line: &str) -> (String, bool) {
 
 fn gen_net(r: &mut Rng, n: usize) -> Vec<String> {
     let inputs = gen_parse_inputs(r, n);
-    let eps = ["tcp", "atcp", "ws", "client", "aclient", "wsclient"];
+    let eps = ["tcp", "atcp", "ws", "client", "aclient", "wsclient", "wsproxy"];
     let mut ops: Vec<String> = inputs.iter().enumerate().map(|(i, bs)| format!("net n{} {} {} {}", i, eps[i % eps.len()], hex(bs), r.below(2))).collect();
     for i in 0..(n / 40).max(4) {
         let suffix = match i % 4 { 0 => vec![], 1 => vec![0], 2 => RawFrame::request(1, false, 1, b"/x", 2, b"7").to_vec(), _ => { let l = 1 + r.below(40) as usize; r.bytes(l) } };
@@ -1358,14 +1403,14 @@ fn gen_net(r: &mut Rng, n: usize) -> Vec<String> {
     }
     // a well-formed request to a registered route followed by trailing bytes / a second frame, as ONE WebSocket message:
     // the exact-length rule says it must not be served
-    for i in 0..(n / 12).max(8) {
+    for i in 0..(n / 12).max(12) {
         let mut m = RawFrame::request(4242, false, 1, b"/ping", 2, b"null").to_vec();
         match i % 3 {
             0 => { let l = 1 + r.below(9) as usize; m.extend(r.bytes(l)); }
             1 => m.extend(RawFrame::request(4243, false, 1, b"/ping", 2, b"null").to_vec()),
             _ => m.push(0),
         }
-        ops.push(format!("net x{} ws {}", i, hex(&m)));
+        ops.push(format!("net x{} {} {}", i, if i % 2 == 0 { "ws" } else { "wsproxy" }, hex(&m)));
     }
     ops
 }
